@@ -77,6 +77,10 @@ CHECKS.update({
     "C15": dict(technique="TLA+ module Commands.tla: the declarative command table (argument -> wire field(s), presence flag, transform; legacy encodings keyed on the negotiated version); TLC enumerates command x subset of optional arguments x value class x version and evaluates Expected; every case replayed on a real client connected with that version, the full field map of the written frame compared", text="Exhaustive in the thorough tier (25 011 command cases incl. all 4 096 subsets of light_command x 3 classes x versions, 192 service-argument cases); quick samples light/climate subsets and runs every other command fully. Falsy values, ms conversion, colour split and the three legacy rules are part of the table.", design="§3.9, §6 C15", note="Known finding: lock_command(code) omits has_code (pinned by an existing test). protobuf decoding of the written frame is trusted. " + TB),
 })
 
+CHECKS.update({
+    "C14": dict(technique="TLA+ module Models.tla over ProtoSchema.tla (enums, messages and field types generated at check time from the text of api.proto): TLC evaluates the table statements (enum values / names / no aliases, field-name mirror) on a snapshot of the model enums and classes and enumerates the conversion case analysis message x field x value class with the demanded result; every case materialised on the real from_pb / to_dict / from_dict", text="Exhaustive over the finite tables (29 enums, 57 model classes) and over the case space of 1 455 field x value-class cases (every known enum number, unknown numbers, mixed lists, float32 patterns incl. ties, powers of ten, sub-normals, signed zero, infinities, NaN) with a to_dict/from_dict round trip per case.", design="§3.9, §6 C14", note="Known finding: UpdateCommand.INSTALL names wire value 1 (UPDATE). The float oracle is exact decimal rounding of the float32 value; nested sub-messages are only required not to fail. " + TB),
+})
+
 NOT_YET = {}
 
 
